@@ -189,7 +189,11 @@ func c05Calls(cs []recCall) string {
 	}
 	var p []string
 	for _, c := range cs {
-		p = append(p, c.name+"@"+c05StateLetter(c.st))
+		m := ""
+		if c.failed {
+			m = "!" // the stub refused this call
+		}
+		p = append(p, c.name+"@"+c05StateLetter(c.st)+m)
 	}
 	return strings.Join(p, "+")
 }
@@ -202,6 +206,8 @@ type c05Conn struct {
 	sess *recSession
 	dead bool
 	n    int
+	// closedCh is closed when the session's Close has been called (serve() has returned)
+	closedCh chan struct{}
 }
 
 func (x *c05Conn) deadline() { x.raw.SetReadDeadline(time.Now().Add(15 * time.Second)) }
@@ -406,6 +412,67 @@ func (x *c05Conn) step(st c05Step, tlsNow *bool) string {
 		pc.ucaps, pf.status, pe.status, c05Calls(pcs)}, "|")
 }
 
+func c05NoClose(cs []recCall) []recCall {
+	var out []recCall
+	for _, c := range cs {
+		if c.name != "Close" {
+			out = append(out, c)
+		}
+	}
+	return out
+}
+
+// group executes several steps whose commands are sent in ONE write (pipelined), so that the later
+// ones are already in the server's read buffer when the first is handled. Only the first step's
+// failure is armed. The calls cannot be attributed to the single commands without racing the
+// server, so all of them are reported with the last step; steps before the last are not probed
+// ("~"). If the connection ended, the server may still be working through buffered commands: the
+// calls are collected only after the session's Close.
+func (x *c05Conn) group(g []c05Step, tlsNow *bool) []string {
+	n0 := x.logLen()
+	x.arm(c05KindByName[g[0].kind], g[0].oc)
+	texts := make([]string, len(g))
+	for i, st := range g {
+		k := c05KindByName[st.kind]
+		texts[i] = k.good
+		if st.oc == "parse" {
+			texts[i] = k.bad
+		}
+	}
+	rs := x.roundTrips(texts)
+	x.disarm()
+	n1 := x.logLen()
+	ps := x.roundTrips([]string{"CAPABILITY", "FETCH 1 FLAGS", "ENABLE"})
+	pc, pf, pe := ps[0], ps[1], ps[2]
+	bye := pc.bye || pf.bye || pe.bye
+	for _, r := range rs {
+		bye = bye || r.bye
+	}
+	var calls, pcalls []recCall
+	if x.dead {
+		select {
+		case <-x.closedCh:
+		case <-time.After(10 * time.Second):
+		}
+		calls = c05NoClose(x.logFrom(n0))
+	} else {
+		calls = c05NoClose(x.logFrom(n0))
+		if len(calls) > n1-n0 {
+			calls, pcalls = calls[:n1-n0], calls[n1-n0:]
+		}
+	}
+	out := make([]string, len(g))
+	for i, r := range rs {
+		if i < len(g)-1 {
+			out[i] = strings.Join([]string{"-", r.status, b01(bye && i == 0), strconv.Itoa(r.cont), r.caps, b01(*tlsNow), "~", "~", "~", "~"}, "|")
+		} else {
+			out[i] = strings.Join([]string{c05Calls(calls), r.status, b01(bye && i == 0), strconv.Itoa(r.cont), r.caps, b01(*tlsNow),
+				pc.ucaps, pf.status, pe.status, c05Calls(pcalls)}, "|")
+		}
+	}
+	return out
+}
+
 type c05Server struct {
 	ts  *testServer
 	cfg c05Cfg
@@ -435,7 +502,7 @@ func c05NewServer(cfg c05Cfg) *c05Server {
 
 // run executes a history on a fresh connection; returns greeting observation, per-step
 // observations and the end-of-connection observation.
-func (s *c05Server) run(h []c05Step) (greet string, obs []string, tail string) {
+func (s *c05Server) run(h []c05Step, pipeFrom int) (greet string, obs []string, tail string) {
 	s.mu <- struct{}{}
 	raw := s.ts.ln.dial()
 	x := &c05Conn{raw: raw, conn: raw, br: bufio.NewReader(raw)}
@@ -474,6 +541,7 @@ func (s *c05Server) run(h []c05Step) (greet string, obs []string, tail string) {
 		return greet, nil, "nosession"
 	}
 	closed := make(chan struct{})
+	x.closedCh = closed
 	c05Waiters.Store(x.sess, closed)
 	x.sess.mu.Lock()
 	early := x.sess.closes > 0 // only if the server already gave up on the connection
@@ -481,7 +549,11 @@ func (s *c05Server) run(h []c05Step) (greet string, obs []string, tail string) {
 	if early {
 		c05SignalClose(x.sess)
 	}
-	for _, st := range h {
+	for i, st := range h {
+		if pipeFrom >= 0 && i == pipeFrom {
+			obs = append(obs, x.group(h[i:], &tlsNow)...)
+			break
+		}
 		obs = append(obs, x.step(st, &tlsNow))
 	}
 	// end of connection: the session must be closed exactly once (audited again at the end of the run)
@@ -574,7 +646,7 @@ func c05Distinct(k c05Kind, oc string) bool {
 
 type c05Case struct {
 	cfg    c05Cfg
-	kind   string // row | hist
+	kind   string // row | hist | pipe (the steps from nsetup on are sent in one write)
 	target string // "s1" = selected, TLS on (rows only)
 	nsetup int
 	hist   []c05Step
@@ -590,6 +662,14 @@ func c05Table() (cases []c05Case, skipped int) {
 				if !ok {
 					skipped++
 					continue
+				}
+				// commands that end the connection (LOGOUT; an unknown command before authentication),
+				// followed in the SAME write by two marker commands: nothing after the end is processed
+				if !(cfg.full && cfg.caps != 1) {
+					for _, term := range []string{"logout", "unknown", "uidunknown"} {
+						h := append(append([]c05Step(nil), path...), c05Step{term, "ok"}, c05Step{"login", "ok"}, c05Step{"noop", "ok"})
+						cases = append(cases, c05Case{cfg: cfg, kind: "pipe", target: string(st) + b01(wantTLS), nsetup: len(path), hist: h})
+					}
 				}
 				for _, k := range c05Kinds {
 					for _, oc := range c05Outcomes {
@@ -645,7 +725,11 @@ func c05RandHist(r *rng, cfgs []c05Cfg) c05Case {
 }
 
 func c05Exec(servers map[c05Cfg]*c05Server, c c05Case) caseLine {
-	greet, obs, tail := servers[c.cfg].run(c.hist)
+	pipeFrom := -1
+	if c.kind == "pipe" {
+		pipeFrom = c.nsetup
+	}
+	greet, obs, tail := servers[c.cfg].run(c.hist, pipeFrom)
 	o := "-"
 	if len(obs) > 0 {
 		o = strings.Join(obs, ";")
@@ -700,7 +784,9 @@ func genC05(e *emitter, tier string, seed uint64) {
 	parCases(e, len(cases), func(i int) []caseLine {
 		c := cases[i]
 		l := c05Exec(servers, c)
-		if c.kind == "row" {
+		if c.kind == "pipe" {
+			l.counts = []string{"pipe:state:" + c.target}
+		} else if c.kind == "row" {
 			if len(c.hist) > 0 {
 				last := c.hist[len(c.hist)-1]
 				l.counts = []string{"row:state:" + c.target, "row:outcome:" + last.oc}
